@@ -18,6 +18,7 @@ from __future__ import annotations
 
 import itertools
 import os
+import re
 import sys
 import tempfile
 from fractions import Fraction
@@ -189,6 +190,7 @@ class ScanTracer:
         self.code = code
         self.snaps = []
         self.final = None
+        self.final_arr = None
         self.ok = True
 
     def _snap(self, frame):
@@ -204,6 +206,13 @@ class ScanTracer:
                 self.snaps.append(s)
         elif event == "return":
             self.final = self._snap(frame)
+            arr = frame.f_locals.get("path_arr")
+            try:
+                self.final_arr = None if arr is None else [tuple(int(v) for v in seg) for seg in arr]
+                if self.final_arr is not None and any(len(seg) != 3 for seg in self.final_arr):
+                    self.final_arr = None     # another representation of the sub-paths: nothing to compare entry by entry
+            except Exception:  # noqa: BLE001  (a refactored function may keep something else under that name)
+                self.final_arr = None
         return self.local
 
     def glob(self, frame, event, arg):
@@ -233,7 +242,7 @@ class ScanTracer:
 # ----------------------------------------------------------------------------------------------- parts
 def trace_part(ctx, Path, System, tis, have_model):
     cases = trace_cases(ctx)
-    code_states, code_w, code_cw = [], [], []
+    code_states, code_w, code_cw, code_arr = [], [], [], []
     fn_code = tis.wirefence_weight_and_pick.__code__
     for (i0, l, r, ops) in cases:
         p = mk(ops, Path, System)
@@ -250,6 +259,7 @@ def trace_part(ctx, Path, System, tis, have_model):
             sys.settrace(prev)
         code_w.append(w)
         code_states.append(tr.states(max(len(ops) - 1, 0)) if not isinstance(w, str) else None)
+        code_arr.append(tr.final_arr if not isinstance(w, str) else None)
         try:
             v = tis.compute_weight(mk(ops, Path, System), [float(i0), float(l), float(r)], "wf")
             code_cw.append(int(v))
@@ -258,6 +268,7 @@ def trace_part(ctx, Path, System, tis, have_model):
     if not have_model:
         return
     out = ctx.driver([f"trace {l} {r} {lst(ops)}" for (i0, l, r, ops) in cases])
+    out_spec = ctx.driver([f"specsegs {l} {r} {lst(ops)}" for (i0, l, r, ops) in cases])
     cells = {}
     untraced = 0
     for k, (i0, l, r, ops) in enumerate(cases):
@@ -279,6 +290,17 @@ def trace_part(ctx, Path, System, tis, have_model):
                          note="(key_l, key_r, isave, len(path_arr)) after a scan iteration")
         # the property on this input (independent count), also for the long structured paths
         sw, segs = py_spec(ops, l, r)
+        showsegs = lambda L: lst([f"{a},{b},{c}" for (a, b, c) in L])  # noqa: E731
+        # path_arr itself (content, order, multiplicity): code vs model, Lean specification vs independent transcription,
+        # and the property on the code's own list
+        if out_spec[k] != showsegs(segs):
+            ctx.disagree(dict(rep, what="specSegs(lean) vs py_spec"), showsegs(segs), out_spec[k])
+        if code_arr[k] is not None:
+            if showsegs(code_arr[k]) != segs_m:
+                ctx.disagree(dict(rep, what="path_arr at return"), showsegs(code_arr[k]), segs_m)
+            if list(code_arr[k]) != list(segs):
+                ctx.fail("C10:path-arr-not-the-valid-subpaths", f"path_arr {code_arr[k]} but the valid sub-paths of [{l}, {r}) are {segs}",
+                         {"l": l, "r": r, "ops": list(ops), "code": [list(x) for x in code_arr[k]], "spec": [list(x) for x in segs], "what": "path_arr"})
         if l <= r and code_w[k] != sw:
             ctx.fail("C10:weight-ne-spec", f"wirefence weight {code_w[k]} ≠ number of frames on valid sub-paths {sw}",
                      {"l": l, "r": r, "ops": list(ops), "code": code_w[k], "spec": sw})
@@ -322,6 +344,10 @@ def segment_part(ctx, Path, System, tis, have_model):
         xs = xi_grid(segs, n) if n else [Fraction(1, 2)]
         if len(xs) > 4:
             xs = rng.sample(xs, 4)
+        if n and rng.random() < 0.08:
+            # a draw no generator gives (ξ ≥ 1): ξ = 1 still takes the last sub-path, above 1 the loop over the sub-paths
+            # runs out and the empty path comes back with the weight (tis.py:241 → 251)
+            xs = xs + [rng.choice((Fraction(1), Fraction(3, 2), Fraction(1) + Fraction(1, 1 << 20)))]
         for x in xs:
             longest = max((s[2] + 2 for s in segs), default=3)
             ml = rng.choice((None, 10_000, len(ops), longest, longest - 1, 2, 1, 0))
@@ -505,7 +531,8 @@ def has_part(ctx, Path, System, tis, have_model):
 
 
 def callsite_part(ctx, Path, System, tis, have_model):
-    """REPEX_state.load_paths, run_md, subt_acceptance with a configured cap"""
+    """REPEX_state.load_paths, run_md, subt_acceptance with a configured cap — the state, the loaded weights and the
+    md_items all come out of ONE call of the real setup_internal"""
     from infretis.classes import repex as R
     rng = ctx.rng
     exe = tempfile.mkdtemp(prefix="vp-c10-", dir="/var/tmp")
@@ -518,23 +545,36 @@ def callsite_part(ctx, Path, System, tis, have_model):
         for intfs, cap in cfgs:
             n_ens = len(intfs)
             for _rep in range(25 if ctx.quick else 250):
-                moves = ["sh"] + [rng.choice(("wf", "wf", "sh")) for _ in range(n_ens - 1)]
+                moves = ["sh"] + [rng.choice(("wf", "wf", "wf", "sh", "sh", "ss")) for _ in range(n_ens - 1)]
                 lm1 = rng.choice((None, None, intfs[0] - 1))
-                st = make_state(R, intfs, cap, lm1, moves)
                 opss = [structured(rng, intfs[0], intfs[0], 6)]
                 for i in range(n_ens - 1):
                     lo = intfs[i]
                     hi = intfs[-1] if rng.random() < 0.5 else (intfs[-1] if cap is None else cap)
                     opss.append(structured(rng, lo, max(lo, hi), rng.choice((6, 15, 40))))
-                got, routed = real_load(st, Path, System, opss)
+                # the number of paths need not be the state's size: too few (IndexError), too many (never looked at)
+                u = rng.random()
+                if u < 0.12:
+                    opss = opss[:rng.randint(0, n_ens - 1)]
+                elif u < 0.24:
+                    opss = opss + [structured(rng, intfs[0], intfs[-1], 8) for _ in range(rng.randint(1, 2))]
+                md0, st, (got, routed) = real_setup(R, Path, System, intfs, cap, lm1, moves, opss)
                 load_cases.append((intfs, cap, lm1, tuple(moves), tuple(opss), got, routed))
-                # run_md on the md_items setup_internal builds from this state
-                for ens_num in rng.sample(range(-1, n_ens - 1), min(3, n_ens)):
-                    lo = intfs[max(ens_num, 0)]
-                    ops = structured(rng, lo, intfs[-1] if cap is None else max(cap, lo), rng.choice((5, 12, 40)))
+                if st is None:
+                    st = make_state(R, intfs, cap, lm1, moves)
+                    md0 = None
+                # run_md on the md_items setup_internal built; a zero swap hands it two trials ([0-] and [0+])
+                picks = [[e] for e in rng.sample(range(-1, n_ens - 1), min(3, n_ens))] + [[-1, 0]]
+                if rng.random() < 0.3:
+                    picks.append([0, -1])
+                for ens_nums in picks:
+                    trials = []
+                    for ens_num in ens_nums:
+                        lo = intfs[max(ens_num, 0)]
+                        trials.append(structured(rng, lo, intfs[-1] if cap is None else max(cap, lo), rng.choice((5, 12, 40))))
                     status = rng.choice(("ACC", "ACC", "ACC", "BWI"))
-                    got = real_md(st, tis, Path, System, exe, ens_num, status, ops)
-                    md_cases.append((intfs, cap, lm1, tuple(moves), ens_num, status, ops, got))
+                    got = real_md(st, tis, Path, System, exe, ens_nums, status, trials, md0)
+                    md_cases.append((intfs, cap, lm1, tuple(moves), tuple(ens_nums), status, tuple(trials), got, md0 is not None))
                 # subt_acceptance on the ensembles initiate_ensembles built
                 for e in range(1, n_ens):
                     ens = dict(st.ensembles[e])
@@ -546,21 +586,31 @@ def callsite_part(ctx, Path, System, tis, have_model):
         import shutil
         shutil.rmtree(exe, ignore_errors=True)
     if have_model:
-        out_l = ctx.driver([f"loadw {opt(lm1)} {opt(cap)} {lst(intfs)} {lst(moves)} {len(opss)} " + " ".join(lst(o) for o in opss)
+        out_l = ctx.driver([f"loadwn {len(intfs)} {opt(lm1)} {opt(cap)} {lst(intfs)} {lst(moves)} {len(opss)} " + " ".join(lst(o) for o in opss)
                             for (intfs, cap, lm1, moves, opss, got, routed) in load_cases])
-        out_m = ctx.driver([f"mdw {opt(lm1)} {opt(cap)} {ens_num} {lst(intfs)} {lst(moves)} {lst(ops)}"
-                            for (intfs, cap, lm1, moves, ens_num, status, ops, got) in md_cases])
+        out_m = ctx.driver([f"mdall {1 if status == 'ACC' else 0} {opt(cap)} {lst(intfs)} {lst(moves)} {len(trials)} "
+                            + " ".join(lst(o) for o in trials) + f" {len(ens_nums)} " + " ".join(f"{e} {opt(lm1)}" for e in ens_nums)
+                            for (intfs, cap, lm1, moves, ens_nums, status, trials, got, _r) in md_cases])
         out_s = ctx.driver([f"subtw {l} {m} {r} {opt(cap)} {mv} {lst(ops)}" for (l, m, r, cap, mv, ops, got) in subt_cases])
     for k, (intfs, cap, lm1, moves, opss, got, routed) in enumerate(load_cases):
-        ctx.count(1, branch="callsite:load_paths")
-        rep = {"fn": "load_paths", "intfs": list(intfs), "cap": cap, "lm1": lm1, "moves": list(moves), "paths": [list(o) for o in opss]}
+        size = len(intfs)
+        kind = "short" if len(opss) < size else ("long" if len(opss) > size else "exact")
+        ctx.count(1, branch=f"callsite:load_paths:{kind}")
+        rep = {"fn": "load_paths", "intfs": list(intfs), "cap": cap, "lm1": lm1, "moves": list(moves), "paths": [list(o) for o in opss],
+               "via": "setup_internal"}
         if have_model and got != out_l[k]:
             ctx.disagree(rep, got, out_l[k])
+        if kind == "short":
+            # fewer paths than ensembles: the library refuses (IndexError); the property says nothing about such a call,
+            # only model and code are compared
+            continue
         if got.startswith("err"):
             ctx.fail("C10:load-paths-raises", f"load_paths raised {got}", rep)
             continue
         want = want_load(intfs, cap, moves, opss)
-        if got != want:
+        # surplus paths (beyond the state's size): whether they are left alone is compared model-vs-code only
+        entries = lambda t: re.findall(r"\[[^\]]*\]|-", t.split(" ", 1)[1] if " " in t else "")  # noqa: E731
+        if entries(got)[:size] != entries(want)[:size] or len(entries(got)) != len(opss):
             ctx.fail("C10:load-paths-weights", f"weights given by load_paths {got}; frames on valid sub-paths of [λ_i, cap={cap}) give {want}",
                      dict(rep, code=got, spec=want))
         elif not routed:
@@ -568,23 +618,23 @@ def callsite_part(ctx, Path, System, tis, have_model):
         ctx.distinct(("load", intfs, cap, moves, opss))
         if k % 61 == 0:
             ctx.sample(dict(rep, code=got))
-    for k, (intfs, cap, lm1, moves, ens_num, status, ops, got) in enumerate(md_cases):
-        ctx.count(1, branch="callsite:run_md")
-        rep = {"fn": "run_md", "intfs": list(intfs), "cap": cap, "lm1": lm1, "moves": list(moves), "ens": ens_num, "status": status,
-               "ops": list(ops)}
-        if status != "ACC":
-            if got != "unset":
-                ctx.fail("C10:run-md-weights-on-rejected-move", f"a rejected trial got {got}", rep)
-            continue
+    for k, (intfs, cap, lm1, moves, ens_nums, status, trials, got, via_setup) in enumerate(md_cases):
+        ctx.count(1, branch="callsite:run_md:%d-trial%s" % (len(ens_nums), "" if via_setup else ":hand-built-md_items"))
+        rep = {"fn": "run_md", "intfs": list(intfs), "cap": cap, "lm1": lm1, "moves": list(moves), "ens": list(ens_nums), "status": status,
+               "ops": [list(o) for o in trials], "via": "setup_internal" if via_setup else "hand-built"}
         if have_model and got != out_m[k]:
             ctx.disagree(rep, got, out_m[k])
-        want = want_md(intfs, cap, lm1, moves, ens_num, ops)
+        want = want_md_all(intfs, cap, lm1, moves, ens_nums, status, trials)
         if got != want:
-            ctx.fail("C10:run-md-weights", f"weights given by run_md {got}; frames on valid sub-paths of [λ_i, cap={cap}) give {want}",
-                     dict(rep, code=got, spec=want))
-        ctx.distinct(("md", intfs, cap, moves, ens_num, ops))
+            if status != "ACC":
+                ctx.fail("C10:run-md-weights-on-rejected-move", f"a rejected move left {got}", rep)
+            else:
+                ctx.fail("C10:run-md-weights", f"weights given by run_md {got} for the trials of ensembles {list(ens_nums)}; frames on valid "
+                         f"sub-paths of [λ_i, cap={cap}) give {want}", dict(rep, code=got, spec=want))
+        if status == "ACC":
+            ctx.distinct(("md", intfs, cap, moves, ens_nums, trials))
     for k, (l, m, r, cap, mv, ops, got) in enumerate(subt_cases):
-        ctx.count(1, branch="callsite:subt_acceptance")
+        ctx.count(1, branch=f"callsite:subt_acceptance:{mv}")
         rep = {"fn": "subt_acceptance", "intfs": [l, m, r], "cap": cap, "move": mv, "ops": list(ops)}
         if have_model and got != out_s[k]:
             ctx.disagree(rep, got, out_s[k])
@@ -653,20 +703,37 @@ def want_vec(intfs, cap, moves, ops):
     return v + [0]
 
 
-def make_state(R, intfs, cap, lm1, moves):
+def make_cfg(intfs, cap, lm1, moves):
     n_ens = len(intfs)
     tis_set = {"lambda_minus_one": False if lm1 is None else float(lm1), "maxlength": 1000}
     if cap is not None:
         tis_set["interface_cap"] = float(cap)
-    cfg = {"current": {"size": n_ens, "cstep": 0, "active": list(range(n_ens)), "locked": [], "traj_num": n_ens, "frac": {}},
-           "runner": {"workers": 1},
-           "simulation": {"seed": 0, "steps": 10, "interfaces": [float(x) for x in intfs], "shooting_moves": list(moves),
-                          "tis_set": tis_set, "load_dir": "load", "ensemble_engines": [["engine0"]] * n_ens},
-           "output": {"screen": 0, "data_dir": "./", "data_file": "./infretis_data.txt", "delete_old": False}}
-    st = R.REPEX_state(cfg, minus=True)
+    return {"current": {"size": n_ens, "cstep": 0, "active": list(range(n_ens)), "locked": [], "traj_num": n_ens, "frac": {}},
+            "runner": {"workers": 1},
+            "simulation": {"seed": 0, "steps": 10, "interfaces": [float(x) for x in intfs], "shooting_moves": list(moves),
+                           "tis_set": tis_set, "load_dir": "load", "ensemble_engines": [["engine0"]] * n_ens},
+            "output": {"screen": 0, "data_dir": "./", "data_file": "./infretis_data.txt", "delete_old": False}}
+
+
+def make_state(R, intfs, cap, lm1, moves):
+    st = R.REPEX_state(make_cfg(intfs, cap, lm1, moves), minus=True)
     st.initiate_ensembles()
     st.traj_data = {}
     return st
+
+
+def show_weights(paths):
+    return "%d %s" % (len(paths), " ".join("-" if p.weights is None else "[" + nums(p.weights) + "]" for p in paths))
+
+
+def load_outcome(st, paths, added):
+    """(weights of every given path, `-` = never looked at; True iff what add_traj / traj_data received is what the
+    paths carry)"""
+    got = show_weights(paths)
+    seen = [p for p in paths if p.weights is not None]
+    routed = [tuple(a["valid"]) == tuple(paths[a["ens"] + 1].weights) and a["traj"] is paths[a["ens"] + 1] for a in added]
+    stored = [tuple(st.traj_data[p.path_number]["weights"]) == tuple(p.weights) for p in seen]
+    return got, all(routed) and all(stored) and len(added) == len(seen)
 
 
 def real_load(st, Path, System, opss):
@@ -677,32 +744,64 @@ def real_load(st, Path, System, opss):
         p.path_number = k
     try:
         st.load_paths(paths)
-        got = "%d %s" % (len(paths), " ".join("[" + nums(p.weights) + "]" for p in paths))
-        routed = [tuple(a["valid"]) == tuple(paths[a["ens"] + 1].weights) and a["traj"] is paths[a["ens"] + 1] for a in added]
-        stored = [tuple(st.traj_data[k]["weights"]) == tuple(paths[k].weights) for k in range(len(paths))]
-        return got, all(routed) and all(stored) and len(added) == len(paths)
+        return load_outcome(st, paths, added)
     except Exception as e:  # noqa: BLE001
         return err_kind(e), False
 
 
-def want_load(intfs, cap, moves, opss):
-    return "%d %s" % (len(opss), " ".join(["[" + nums([1]) + "]"] + ["[" + nums(want_vec(intfs, cap, moves, o)) + "]" for o in opss[1:]]))
+def real_setup(R, Path, System, intfs, cap, lm1, moves, opss):
+    """the REAL `infretis.setup.setup_internal` on a configuration with this cap: REPEX_state, initiate_ensembles,
+    load_paths (on the paths `load_paths_from_disk` is made to return) and the `md_items` dict it hands to the
+    scheduler — so that the cap / interfaces / moves `run_md` receives are the ones the library passes on, not ones
+    this check wrote down.  Logger, engine construction and `add_traj` (C05) are replaced.
+    Returns (md_items or None, state or None, load outcome)."""
+    from infretis import setup as S
+    added = []
+    paths = [mk(o, Path, System) for o in opss]
+    for k, p in enumerate(paths):
+        p.path_number = k
+    saved = (S.setup_logger, S.load_paths_from_disk, S.def_globals, R.REPEX_state.add_traj)
+    S.setup_logger = lambda *a, **kw: None
+    S.load_paths_from_disk = lambda config: paths
+    S.def_globals = lambda config: {}
+    R.REPEX_state.add_traj = lambda self, **kw: added.append(kw)
+    try:
+        try:
+            md0, st = S.setup_internal(make_cfg(intfs, cap, lm1, moves))
+        except Exception as e:  # noqa: BLE001
+            return None, None, (err_kind(e), False)
+    finally:
+        S.setup_logger, S.load_paths_from_disk, S.def_globals, R.REPEX_state.add_traj = saved
+    return md0, st, load_outcome(st, paths, added)
 
 
-def real_md(st, tis, Path, System, exe, ens_num, status, ops):
-    trial = mk(ops, Path, System)
-    trial.generated = ("sh", 0, 0, 0)
-    md = {"mc_moves": st.mc_moves, "interfaces": st.interfaces, "cap": st.cap,      # as setup_internal builds md_items
-          "picked": {ens_num: {"ens": st.ensembles[ens_num + 1], "exe_dir": exe, "traj": None}},
-          "moves": [], "trial_len": [], "trial_op": [], "generated": []}
+def want_load(intfs, cap, moves, opss, size=None):
+    size = len(intfs) if size is None else size
+    ws = ["[" + nums([1]) + "]"] + ["[" + nums(want_vec(intfs, cap, moves, o)) + "]" for o in opss[1:size]] + ["-"] * max(len(opss) - max(size, 1), 0)
+    return "%d %s" % (len(opss), " ".join(ws))
+
+
+def real_md(st, tis, Path, System, exe, ens_nums, status, opss, md0=None):
+    """the real run_md on `md0` (the md_items of the real setup_internal; rebuilt by hand only when none is given) with
+    ALL the picked ensembles of one move (two after a zero swap); select_shoot is replaced by a stub that returns the
+    trials.  Result in the driver's format: `n [w…] [w…]`, `-` for a trial without weights."""
+    if isinstance(ens_nums, int):
+        ens_nums, opss = [ens_nums], [opss]
+    trials = [mk(o, Path, System) for o in opss]
+    for t in trials:
+        t.generated = ("sh", 0, 0, 0)
+    md = dict(md0) if md0 is not None else {"mc_moves": st.mc_moves, "interfaces": st.interfaces, "cap": st.cap}
+    md.update({"picked": {e: {"ens": st.ensembles[e + 1], "exe_dir": exe, "traj": None} for e in ens_nums},
+               "moves": [], "trial_len": [], "trial_op": [], "generated": []})
     real = tis.select_shoot
-    tis.select_shoot = lambda picked, _t=trial, _s=status: (_s == "ACC", [_t], _s)
+    tis.select_shoot = lambda picked, _t=trials, _s=status: (_s == "ACC", list(_t), _s)
     try:
         try:
             tis.run_md(md)
-            got = "unset" if trial.weights is None else nums(trial.weights)
-            if (md["picked"][ens_num]["traj"] is trial) != (status == "ACC"):
-                got += " traj-not-routed"
+            got = show_weights(trials)
+            for e, t in zip(ens_nums, trials):
+                if (md["picked"][e]["traj"] is t) != (status == "ACC"):
+                    got += " traj-not-routed"
         except Exception as e:  # noqa: BLE001
             got = err_kind(e)
     finally:
@@ -715,6 +814,12 @@ def want_md(intfs, cap, lm1, moves, ens_num, ops):
         b = lm1 if lm1 is not None else intfs[0]
         return nums([1 if b <= max(ops) else 0])
     return nums(want_vec(intfs, cap, moves, ops))
+
+
+def want_md_all(intfs, cap, lm1, moves, ens_nums, status, opss):
+    if status != "ACC":
+        return "%d %s" % (len(opss), " ".join("-" for _ in opss))
+    return "%d %s" % (len(opss), " ".join("[" + want_md(intfs, cap, lm1, moves, e, o) + "]" for e, o in zip(ens_nums, opss)))
 
 
 def real_subt(tis, Path, System, ens, ops):
@@ -848,6 +953,21 @@ def replay_ext(r, Path, System, tis):
     """re-run one recorded failing input of the extension parts; None = not one of ours"""
     from infretis.classes import repex as R
     fn = r.get("fn")
+    if r.get("what") == "path_arr":
+        tr = ScanTracer(tis.wirefence_weight_and_pick.__code__)
+        prev = sys.gettrace()
+        sys.settrace(tr.glob)
+        try:
+            try:
+                tis.wirefence_weight_and_pick(mk(r["ops"], Path, System), float(r["l"]), float(r["r"]))
+            except Exception as e:  # noqa: BLE001
+                print("code:", err_kind(e))
+                return 1
+        finally:
+            sys.settrace(prev)
+        want = py_spec(r["ops"], r["l"], r["r"])[1]
+        print("code:", tr.final_arr, "spec:", want)
+        return 0 if tr.final_arr is None or list(tr.final_arr) == list(want) else 1
     if fn == "float-class":
         return replay_float(r, Path, System, tis)
     if fn == "swap-then-wf":
@@ -867,15 +987,29 @@ def replay_ext(r, Path, System, tis):
                 rr = (rr0 if r["cap"] is None else r["cap"]) if r["move"] == "wf" else rr0
                 want = str(py_cw(r["ops"], l, m, rr, r["move"]))
             else:
-                st = make_state(R, r["intfs"], r["cap"], r["lm1"], r["moves"])
                 if fn == "load_paths":
-                    got, routed = real_load(st, Path, System, r["paths"])
-                    want = want_load(r["intfs"], r["cap"], r["moves"], r["paths"])
-                    if got == want and not routed:
+                    size = len(r["intfs"])
+                    if r.get("via") == "setup_internal":
+                        md0, st, (got, routed) = real_setup(R, Path, System, r["intfs"], r["cap"], r["lm1"], r["moves"], r["paths"])
+                    else:
+                        st = make_state(R, r["intfs"], r["cap"], r["lm1"], r["moves"])
+                        got, routed = real_load(st, Path, System, r["paths"])
+                    want = "err:index" if len(r["paths"]) < size else want_load(r["intfs"], r["cap"], r["moves"], r["paths"])
+                    if got == want and not routed and not got.startswith("err"):
                         got += " (not stored)"
                 else:
-                    got = real_md(st, tis, Path, System, exe, r["ens"], r["status"], r["ops"])
-                    want = "unset" if r["status"] != "ACC" else want_md(r["intfs"], r["cap"], r["lm1"], r["moves"], r["ens"], r["ops"])
+                    ens_nums = r["ens"] if isinstance(r["ens"], list) else [r["ens"]]
+                    trials = r["ops"] if isinstance(r["ens"], list) else [r["ops"]]
+                    md0 = None
+                    st = None
+                    if r.get("via") == "setup_internal":
+                        paths = [[1, -1, 1]] + [[-1, 1, -1]] * (len(r["intfs"]) - 1)
+                        md0, st, _ = real_setup(R, Path, System, r["intfs"], r["cap"], r["lm1"], r["moves"], paths)
+                    if st is None:
+                        st = make_state(R, r["intfs"], r["cap"], r["lm1"], r["moves"])
+                        md0 = None
+                    got = real_md(st, tis, Path, System, exe, ens_nums, r["status"], trials, md0)
+                    want = want_md_all(r["intfs"], r["cap"], r["lm1"], r["moves"], ens_nums, r["status"], trials)
         finally:
             os.chdir(cwd0)
             import shutil
@@ -1361,8 +1495,10 @@ def run_ext(ctx, Path, System, tis, have_model, code_move_seed):
         "(sys.settrace); if those names disappear the state comparison is skipped (count in scan_trace_untraced_cases)",
         "high_acc_swap: ξ is kept ≥ 3·2⁻²⁰ away from the ratio unless the ratio is dyadic, so the float quotient and the "
         "rational one compare alike",
-        "call sites: REPEX_state.load_paths runs with add_traj replaced by a recorder (the state matrix is C05's); run_md runs "
-        "with select_shoot replaced by a stub that returns the trial path",
+        "call sites: state, loaded weights and md_items come from ONE call of the real setup_internal (setup_logger, "
+        "load_paths_from_disk, def_globals and REPEX_state.add_traj replaced: the state matrix is C05's); run_md runs on that "
+        "md_items with select_shoot replaced by a stub that returns the trial path(s) — one trial, or two as after a zero swap; "
+        "when setup_internal raises (fewer paths than ensembles) run_md gets a hand-built md_items (branch ...:hand-built-md_items)",
         "float class: order values, interfaces and caps that are arbitrary doubles (interface ± k ulp, ± k·2⁻²⁴ relative, near-tie "
         "runs) reach the Lean model multiplied by their common power-of-two denominator (exact integers)",
         "two-move sequence: retis_swap_zero through C11's World on the ensemble dicts of REPEX_state.initiate_ensembles (one shared "
